@@ -32,8 +32,8 @@ open Bp Bp.Tpl Bp.Grpc
     then one stub method per RPC in the order of `service.methods` -/
 theorem src_stub_class (tc : TypingCompiler) (s : Service) :
     stubClass tc s
-      = [Piece.lit "class ", Piece.expr "service.py_name" s.py_name, Piece.lit "Stub(betterproto.ServiceStub):\n"]
-        ++ (if s.comment ≠ [] then [Piece.expr "service.comment" s.comment, Piece.lit "\n\n"]
+      = [Piece.lit "class ", Piece.expr "output_file.services[].py_name" s.py_name, Piece.lit "Stub(betterproto.ServiceStub):\n"]
+        ++ (if s.comment ≠ [] then [Piece.expr "output_file.services[].comment" s.comment, Piece.lit "\n\n"]
             else if s.methods = [] then [Piece.lit "    pass\n"] else [])
         ++ s.methods.flatMap (stubMethod tc s.py_name) := by
   unfold stubClass passIfEmpty
@@ -43,8 +43,8 @@ theorem src_stub_class (tc : TypingCompiler) (s : Service) :
     `__mapping__` with one row per RPC — all three in the order of `service.methods` -/
 theorem src_base_class (tc : TypingCompiler) (s : Service) :
     baseClass tc s
-      = [Piece.lit "class ", Piece.expr "service.py_name" s.py_name, Piece.lit "Base(ServiceBase):\n"]
-        ++ optComment "service.comment" s.comment ++ [Piece.lit "\n"]
+      = [Piece.lit "class ", Piece.expr "output_file.services[].py_name" s.py_name, Piece.lit "Base(ServiceBase):\n"]
+        ++ optComment "output_file.services[].comment" s.comment ++ [Piece.lit "\n"]
         ++ s.methods.flatMap (baseMethod tc) ++ [Piece.lit "\n"]
         ++ s.methods.flatMap rpcMethod ++ mappingHead tc ++ s.methods.flatMap mappingRow
         ++ [Piece.lit "        }\n\n"] := by
@@ -61,13 +61,13 @@ theorem src_service_classes (c : OutputFile) :
 def stubCall (m : Method) : List Piece :=
   [Piece.lit ((if m.server_streaming then "        async for response in self." else "        return await self.")
      ++ helperOf m.client_streaming m.server_streaming ++ "(\n            \""),
-   Piece.expr "method.route" m.route, Piece.lit "\",\n            ",
-   Piece.expr "method.py_input_message_param" m.py_input_message_param]
+   Piece.expr "output_file.services[].methods[].route" m.route, Piece.lit "\",\n            ",
+   Piece.expr "output_file.services[].methods[].py_input_message_param" m.py_input_message_param]
   ++ (if m.client_streaming then
-        [Piece.lit "_iterator,\n            ", Piece.expr "method.py_input_message_type" m.py_input_message_type]
+        [Piece.lit "_iterator,\n            ", Piece.expr "output_file.services[].methods[].py_input_message_type" m.py_input_message_type]
       else [])
   ++ [Piece.lit ",\n            ",
-      Piece.expr "method.py_output_message_type.strip('\"')" (Py.strStrip m.py_output_message_type "\"".toList),
+      Piece.expr "output_file.services[].methods[].py_output_message_type.strip('\"')" (Py.strStrip m.py_output_message_type "\"".toList),
       Piece.lit (",\n            timeout=timeout,\n            deadline=deadline,\n            metadata=metadata,\n        )"
         ++ (if m.server_streaming then ":\n            yield response\n" ++ (if m.client_streaming then "" else "\n")
             else "\n"))]
@@ -82,9 +82,9 @@ theorem src_stub_body (m : Method) : stubBody m = stubCall m := by
 /-- the whole stub method: signature, docstring, deprecation warning, then that call -/
 theorem src_stub_method (tc : TypingCompiler) (svc : Tpl.Str) (m : Method) :
     ∃ signature : List Piece, stubMethod tc svc m
-      = signature ++ optComment "method.comment" m.comment ++ stubDeprecation svc m ++ stubCall m
+      = signature ++ optComment "output_file.services[].methods[].comment" m.comment ++ stubDeprecation svc m ++ stubCall m
         ++ [Piece.lit "\n"] := by
-  refine ⟨[Piece.lit "    async def ", Piece.expr "method.py_name" m.py_name, Piece.lit "(self"]
+  refine ⟨[Piece.lit "    async def ", Piece.expr "output_file.services[].methods[].py_name" m.py_name, Piece.lit "(self"]
     ++ stubParam tc m ++ stubKwargs tc ++ stubReturn tc m ++ [Piece.lit "\":\n"], ?_⟩
   rw [← src_stub_body]
   simp only [stubMethod, nl, List.append_eq, List.append_assoc]
@@ -95,12 +95,12 @@ theorem src_stub_method (tc : TypingCompiler) (svc : Tpl.Str) (m : Method) :
     python name, with the cardinality of the two flags and the request / reply classes -/
 theorem src_mapping_row (m : Method) :
     mappingRow m
-      = [Piece.lit "        \"", Piece.expr "method.route" m.route,
-         Piece.lit "\": grpclib.const.Handler(\n            self.__rpc_", Piece.expr "method.py_name" m.py_name,
+      = [Piece.lit "        \"", Piece.expr "output_file.services[].methods[].route" m.route,
+         Piece.lit "\": grpclib.const.Handler(\n            self.__rpc_", Piece.expr "output_file.services[].methods[].py_name" m.py_name,
          Piece.lit ",\n",
          Piece.lit ("            grpclib.const.Cardinality." ++ mappingCardOf m.client_streaming m.server_streaming ++ ",\n"),
-         Piece.lit "            ", Piece.expr "method.py_input_message_type" m.py_input_message_type,
-         Piece.lit ",\n            ", Piece.expr "method.py_output_message_type" m.py_output_message_type,
+         Piece.lit "            ", Piece.expr "output_file.services[].methods[].py_input_message_type" m.py_input_message_type,
+         Piece.lit ",\n            ", Piece.expr "output_file.services[].methods[].py_output_message_type" m.py_output_message_type,
          Piece.lit ",\n        ),\n"] := by
   unfold mappingRow cardinality
   cases m.client_streaming <;> cases m.server_streaming <;> simp [mappingCardOf]
@@ -116,18 +116,18 @@ theorem src_cardinalities_agree (cs ss : Bool) :
     async generator to `_call_rpc_handler_server_stream` -/
 theorem src_rpc_adapter (m : Method) :
     rpcMethod m
-      = [Piece.lit "    async def __rpc_", Piece.expr "method.py_name" m.py_name,
+      = [Piece.lit "    async def __rpc_", Piece.expr "output_file.services[].methods[].py_name" m.py_name,
          Piece.lit "(self, stream: \"grpclib.server.Stream[",
-         Piece.expr "method.py_input_message_type" m.py_input_message_type, Piece.lit ", ",
-         Piece.expr "method.py_output_message_type" m.py_output_message_type, Piece.lit "]\") -> None:\n"]
+         Piece.expr "output_file.services[].methods[].py_input_message_type" m.py_input_message_type, Piece.lit ", ",
+         Piece.expr "output_file.services[].methods[].py_output_message_type" m.py_output_message_type, Piece.lit "]\") -> None:\n"]
         ++ (if m.client_streaming then [Piece.lit "        request = stream.__aiter__()\n"]
             else [Piece.lit "        request = await stream.recv_message()\n"])
         ++ (if m.server_streaming then
               [Piece.lit "        await self._call_rpc_handler_server_stream(\n            self.",
-               Piece.expr "method.py_name" m.py_name,
+               Piece.expr "output_file.services[].methods[].py_name" m.py_name,
                Piece.lit ",\n            stream,\n            request,\n        )\n"]
             else
-              [Piece.lit "        response = await self.", Piece.expr "method.py_name" m.py_name,
+              [Piece.lit "        response = await self.", Piece.expr "output_file.services[].methods[].py_name" m.py_name,
                Piece.lit "(request)\n        await stream.send_message(response)\n"])
         ++ [Piece.lit "\n"] := by
   unfold rpcMethod rpcRecv rpcSend nl
@@ -140,14 +140,14 @@ theorem src_rpc_adapter (m : Method) :
     follows iff the RPC is server streaming (the default is then an async generator, which the adapter iterates) -/
 theorem src_default_unimplemented (tc : TypingCompiler) (m : Method) :
     ∃ signature : List Piece, baseMethod tc m
-      = signature ++ optComment "method.comment" m.comment
+      = signature ++ optComment "output_file.services[].methods[].comment" m.comment
         ++ [Piece.lit "        raise grpclib.GRPCError(grpclib.const.Status.UNIMPLEMENTED)\n"]
         ++ (if m.server_streaming then
-              [Piece.lit "        yield ", Piece.expr "method.py_output_message_type" m.py_output_message_type,
+              [Piece.lit "        yield ", Piece.expr "output_file.services[].methods[].py_output_message_type" m.py_output_message_type,
                Piece.lit "()\n"]
             else [])
         ++ [Piece.lit "\n"] := by
-  refine ⟨[Piece.lit "    async def ", Piece.expr "method.py_name" m.py_name, Piece.lit "(self"]
+  refine ⟨[Piece.lit "    async def ", Piece.expr "output_file.services[].methods[].py_name" m.py_name, Piece.lit "(self"]
     ++ baseParam tc m ++ [Piece.lit ") -> "] ++ baseReturn tc m ++ [Piece.lit ":\n"], ?_⟩
   simp only [baseMethod, nl, raiseUnimplemented, unreachableYield, List.append_eq, List.append_assoc]
 
